@@ -113,6 +113,7 @@ class SimProcess:
                               delay=delay)
         self.task.proc = proc
         self.task.attrs["pid"] = self.pid
+        self.task.attrs["delay"] = delay
         sim.ev("start", self.pid, speed, delay)
         sim.yield_(0.0, "proc-start")
 
